@@ -263,7 +263,7 @@ var properties = map[string]*Property{
 			"the kubernetes runs use wall-clock time (bounded liveness 25 s, at most two connection faults per run because client-go backs off exponentially); their traces contain scripted lines and the processor log at quiescent points only",
 			"processor rejections (a rule set the repository refuses) are injected in http/file/blob runs, not in kubernetes runs (the informer has no retry)",
 		},
-		MustBePositive: []string{"provider-http/processor-calls", "provider-fs/processor-calls", "provider-blob/processor-calls", "provider-k8s/processor-calls", "provider-k8s/fault:watch-gap-with-compaction", "provider-fs/runs-through-the-watch-loop", "provider-fs-start/starts-converged", "provider-fs-start/single-file-sources", "provider-blob/stores-without-md5"},
+		MustBePositive: []string{"provider-http/processor-calls", "provider-fs/processor-calls", "provider-blob/processor-calls", "provider-k8s/processor-calls", "provider-k8s/fault:watch-gap-with-compaction", "provider-fs/runs-through-the-watch-loop", "provider-fs-start/starts-converged", "provider-fs-start/single-file-sources", "provider-fs-start/kubelet-volumes", "provider-blob/stores-without-md5"},
 	},
 	"C19": {
 		ID: "C19",
